@@ -8,6 +8,7 @@ mod engines;
 mod c03;
 mod c05;
 mod c06;
+mod c07;
 
 static HOOKS: rzmq::verif::sched::Hooks = rzmq::verif::sched::Hooks {
   point: mc_core::e2::hook_point,
@@ -58,6 +59,7 @@ fn main() {
         "C03" => c03::run(tier),
         "C05" => c05::run(tier),
         "C06" => c06::run(tier),
+        "C07" => c07::run(tier),
         _ => {
           eprintln!("no check registered for {}", prop);
           std::process::exit(2);
@@ -79,6 +81,7 @@ fn main() {
         "C03" => c03::replay(&sub, &v["witness"]),
         "C05" => c05::replay(&sub, &v["witness"]),
         "C06" => c06::replay(&sub, &v["witness"]),
+        "C07" => c07::replay(&sub, &v["witness"]),
         _ => Err(format!("no replay registered for {}", prop)),
       };
       match res {
